@@ -79,15 +79,15 @@ func makeFieldPatch(parent Object, paths []string) Object {
 // rolling oracles need.
 type rollSync struct {
 	sy        *SyncRec
-	parent    Object              // the latest parent as sent to the hook
-	latest    *HookRec            // the call for the latest parent state
-	calls     map[string]*HookRec // canon(request parent) -> call
-	before    []*revInfo          // revisions of this parent in the cache when the sync started
-	after     []*revInfo          // ... plus the accepted revision writes of this sync
-	latestRev string              // name of the revision holding the latest patch (after)
+	parent    Object                       // the latest parent as sent to the hook
+	latest    *HookRec                     // the call for the latest parent state
+	calls     map[string]*HookRec          // canon(request parent) -> call
+	before    []*revInfo                   // revisions of this parent in the cache when the sync started
+	after     []*revInfo                   // ... plus the accepted revision writes of this sync
+	latestRev string                       // name of the revision holding the latest patch (after)
 	desired   map[string]map[string]Object // revision name -> claimKey -> desired child (from that revision's answer)
-	order     []string            // claim keys of rolling children in the latest answer's order
-	complete  bool                // every call was answered 200 and parsed
+	order     []string                     // claim keys of rolling children in the latest answer's order
+	complete  bool                         // every call was answered 200 and parsed
 }
 
 func childClaimKey(w *World, o Object) (string, *Resource) {
